@@ -4,7 +4,7 @@ H = "harness/c13_pq.cpp"
 PLAN = dict(
     level="exploration",
     rule="case = generated program on one concurrent_priority_queue (2-4 threads x 1-7 ops from push(const&)/push(&&)/emplace/try_pop, 2-6 distinct "
-         "priorities with many duplicates, comparator less or greater, 0-40 pre-filled elements, optional k-th element copy construction throws) x "
+         "priorities with many duplicates, comparator less or greater, 0-40 pre-filled elements, optional k-th element copy construction throws or k-th vector allocation fails) x "
          "generated schedule; judged by a Wing-Gong linearizability search against a priority-multiset model (a pop must return an element that no "
          "present element beats; try_pop false only when empty) plus conservation (pushed once, popped at most once, final drain) and exception "
          "accounting (every injected throw surfaces at exactly one pushing caller, no pop caller ever sees one); non-trivial = two operations "
